@@ -9,6 +9,8 @@ import copy
 import itertools
 import json
 import pickle
+import sys
+from pathlib import Path
 
 from .common import Ctx, Driver, CORPUS
 
@@ -37,15 +39,18 @@ MANIFEST = dict(
           "that it does not in general); BeautifulSoup.copy_self's document-level fields (soup_copy_info/idempotent/exact, "
           "soup_pickle_info); pickling as a state machine: every generation is feed(decode(current tree)) whatever markup the object "
           "still holds (pickle_generation, pickle_edit_pickle); the model's reading of Tag.copy_self / Tag.__init__ / "
-          "BeautifulSoup.copy_self / __getstate__ / __setstate__ is pinned to the live source by generated tables compared in full "
-          "(copy_self_source, copy_self_forwards_every_param, soup_copy_self_source, pickle_source). Tie: every element of "
+          "BeautifulSoup.copy_self / __getstate__ / __setstate__ is pinned to the behaviour observed on probe objects (spy subclasses "
+          "recording the bound arguments of __init__ / decode / reset / _feed, one sentinel per parameter; not source text) by generated "
+          "tables compared in full (copy_self_observed, copy_self_forwards_every_param, soup_copy_self_observed, pickle_observed). "
+          "Tie: every element of "
           "generated/parsed/edited trees x copy.copy/deepcopy/__copy__/copy_self() against the property oracle and the Lean mirror + "
           "recursion (identity numbering), _event_stream against the recursive event list, __setitem__ of the three dict classes against "
           "coerce, single edits on copy resp. original with full re-inspection of the other side (and against applyEdit); histories "
           "observe-edit-observe with never-observed twins and copies after edits (exposes per-object caches); == / != / hash on all pairs "
           "of pools of near-identical trees (22 kinds of variant) against an independent structural evaluator and eqImpl; exhaustive small "
           "trees with repeated identical sub-structure; document-level fields of copied/pickled BeautifulSoup objects; pickle round trips "
-          "and pickle/edit/copy histories of documents, tags and strings against decode()+re-parse of the current tree."),
+          "and pickle/edit/copy histories of documents, tags and strings against decode()+re-parse of the current tree; the probe "
+          "objects behind the generated tables, read as inputs of the property (stream probes: what the clone / the state must hold)."),
     design="7/C12",
     note=("Pickling: the Lean statement is generic in decode/feed (what feed(decode(t)) is, is C05); that unpickled objects are new "
           "objects, and Tag/NavigableString pickling (default pickling of the linked structure, recursion-bound, small documents only) are "
@@ -2640,6 +2645,64 @@ def run_case(ctx, batch, c, stream):
         check_deepcopy_run(ctx, batch, c["recipe"], c["elements"], c["form"], stream)
 
 
+# --------------------------------------------------------------------------------------
+# the probe objects of translate/parts_c12.py, read as inputs of the property itself
+
+# the observed facts (translate/parts_c12.py: spy subclasses, sentinel values) that are claims of the PROPERTY TEXT on the probe
+# objects - "preserves every tag's attributes and settings, is attached to no tree, shares no mutable state", "a pickle round
+# trip yields an object equal to the original up to the re-parse". What the constructor / decode merely *received* is not a claim
+# of the property: those facts are Lean obligations only (Props/C12 copy_self_observed, pickle_observed).
+PROBE_CLAIMS = {
+    "copySelfClone": {"name": "same", "namespace": "same", "prefix": "same", "attrs": "rebuilt", "parent": "none", "previous": "none",
+                      "is_xml": "same", "sourceline": "same", "sourcepos": "same", "can_be_empty_element": "same",
+                      "cdata_list_attributes": "same", "preserve_whitespace_tags": "same", "interesting_string_types": "same",
+                      "namespaces": "same"},
+    "copySelfFacts": {k: True for k in (
+        "attrs_fresh_object", "attrs_keys_in_order", "attrs_same_class", "can_be_empty_element_carried",
+        "can_be_empty_element_none_carried", "clone_is_new_object_of_same_class", "empty_attrs_same_class_fresh", "hidden_carried",
+        "hidden_false_carried", "list_values_fresh", "list_values_same_class_same_items", "no_contents", "no_links", "no_parent",
+        "original_untouched", "other_values_identical")},
+    "soupCopySelfFacts": {k: True for k in ("clone_is_new_object_of_same_class", "no_parent_no_siblings", "original_untouched")},
+    "getstateFacts": {k: True for k in ("markup_is_current_tree_not_leftover", "empty_tree_gives_empty_markup", "object_untouched")},
+    "setstateFacts": {k: True for k in ("tree_is_parse_of_state_markup",)},
+}
+PROBE_OF = {"copySelfClone": "copy_self", "copySelfFacts": "copy_self", "soupCopySelfFacts": "soup_copy_self",
+            "getstateFacts": "getstate", "setstateFacts": "setstate"}
+
+
+def run_probes():
+    tr = str(Path(__file__).resolve().parent.parent / "translate")
+    if tr not in sys.path:
+        sys.path.append(tr)
+    import parts_c12
+    return parts_c12.all_probes()
+
+
+def probe_failures(r):
+    out = []
+    for table, claims in PROBE_CLAIMS.items():
+        got = dict((k, v) for k, v in r[table])
+        why = r["raised"].get(PROBE_OF[table])
+        for fact, want in claims.items():
+            obs = got.get(fact, "raised: " + str(why) if why else "missing")
+            if obs != want:
+                out.append((table, fact, want, obs))
+    return out
+
+
+def stream_probes(ctx):
+    r = run_probes()
+    bad = {(t, f): (w, o) for t, f, w, o in probe_failures(r)}
+    for table, claims in PROBE_CLAIMS.items():
+        for fact, want in claims.items():
+            case = {"op": "probe", "probe": PROBE_OF[table], "table": table, "fact": fact}
+            ctx.case((table, fact), case)
+            ctx.count(f"branch:probe-{PROBE_OF[table]}")
+            if (table, fact) in bad:
+                ctx.violation(f"probe object of translate/parts_c12.py ({PROBE_OF[table]}): {fact} does not hold", case=case,
+                              expected=str(want), observed=str(bad[(table, fact)][1]), stream="probes")
+
+
 def run(ctx: Ctx):
     import warnings
     warnings.simplefilter("ignore")
@@ -2667,6 +2730,7 @@ def run(ctx: Ctx):
     batch = Batch(ctx)
     import traceback
     streams = [("corpus", lambda: stream_corpus(ctx, batch)), ("nonstring-attr", lambda: stream_nonstring(ctx)),
+               ("probes", lambda: stream_probes(ctx)),
                ("setitem", lambda: stream_setitem(ctx, batch)), ("soupinfo", lambda: stream_soupinfo(ctx, batch)),
                ("settings", lambda: stream_settings(ctx)), ("detached", lambda: stream_detached(ctx, batch, ctx.n(120, 1500))),
                ("deepcopy-run", lambda: stream_deepcopy_runs(ctx, batch, ctx.n(150, 2000))), ("small-exhaustive", lambda: stream_small(ctx, batch, ctx.n(5, 6))),
@@ -2687,8 +2751,9 @@ def run(ctx: Ctx):
                                    traceback.format_tb(ex.__traceback__)[-1].strip().replace("\n", " "), stream=name)
     batch.flush()
     if ctx.lean is not None and not ctx.lean.ok:
-        ctx.notes.append("Lean obligations did not check; the generated tables describe the source of copy_self/__init__: the copies "
-                         "stream (every setting x every element) is the search for a failing input")
+        ctx.notes.append("Lean obligations did not check; the generated tables describe the behaviour of copy_self / __getstate__ / "
+                         "__setstate__ on the probe objects of translate/parts_c12.py: the probes stream reads the same objects as "
+                         "inputs of the property, the copies / settings / pickle streams are the wider search for a failing input")
     ctx.notes.append("quirks observed and modelled: a copy has parser_class None, the stock "
                      "attribute_value_list_class, known_xml = the original's _is_xml; BeautifulSoup.copy_self takes the root data from "
                      "the builder; == ignores string classes, prefix, namespace and settings, so equal tags may render and hash "
@@ -2729,6 +2794,13 @@ def replay(path):
                 return 1
         print("every instance attribute kept")
         return 0
+    if op == "probe":
+        r = run_probes()
+        got = dict((k, v) for k, v in r[c["table"]])
+        want = PROBE_CLAIMS[c["table"]][c["fact"]]
+        print(f"probe {c['probe']} (translate/parts_c12.py, probe_* functions build the objects): {c['table']}.{c['fact']} =",
+              got.get(c["fact"]), "| the property wants", want, "| probe raised:", r["raised"].get(c["probe"]))
+        return 0 if got.get(c["fact"]) == want else 1
     if op == "pickle-history":
         run_pickle_history(ctx, c["recipe"], c["steps"], "replay")
         print("tree:", ascii(build(c["recipe"]).decode()), "steps:", c["steps"])
